@@ -3575,6 +3575,8 @@ def default_items(repo):
         {'file': a + 'div/reciprocal.rs', 'fn': 'reciprocal_2_mg10', 'lean': 'reciprocal_2_mg10', 'aliases': ['reciprocal_2'], 'group': 'div'},
         {'file': a + 'div/small.rs', 'fn': 'div_2x1_mg10', 'lean': 'div_2x1_mg10', 'aliases': ['div_2x1'], 'group': 'div'},
         {'file': a + 'div/small.rs', 'fn': 'div_3x2_mg10', 'lean': 'div_3x2_mg10', 'aliases': ['div_3x2'], 'group': 'div'},
+        {'file': a + 'div/reciprocal.rs', 'fn': 'reciprocal_ref', 'lean': 'reciprocal_ref', 'group': 'div'},
+        {'file': a + 'div/small.rs', 'fn': 'div_2x1_ref', 'lean': 'div_2x1_ref', 'group': 'div'},
     ]
 
 
